@@ -423,6 +423,7 @@ struct Value {
     void do_addr_to_spk() {
         // addresses are base58-check encoded, so we decode them first
         do_base58chkdec();
+        if (data.empty()) return; // decode failed (diagnostic already printed)
         // they are now prefixed with a 0x00; rip that out
         data.erase(data.begin());
         // wrap in appropriate script fluff
